@@ -108,6 +108,7 @@ func (bf *buffer) ID() int64 {
 
 func (bf *buffer) Close() error {
 	atomic.StoreInt64(&bf.done, 1)
+	verifYield("buf.close.afterdone", bf)
 
 	bf.pcond.L.Lock()
 	bf.pcond.Broadcast()
@@ -268,6 +269,7 @@ func (bf *buffer) Read(p []byte) (int, error) {
 			}
 
 			bf.cwait++
+			verifYield("buf.read.prewait", bf)
 			bf.ccond.Wait()
 		}
 		bf.ccond.L.Unlock()
@@ -317,6 +319,7 @@ func (bf *buffer) ReadPeek(n int) ([]byte, error) {
 	ppos := bf.pseq.get()
 
 	// If there's no data, then let's wait until there is some data
+	verifYield("buf.peek.prelock", bf)
 	bf.ccond.L.Lock()
 	for ; cpos >= ppos; ppos = bf.pseq.get() {
 		if bf.isDone() {
@@ -324,6 +327,7 @@ func (bf *buffer) ReadPeek(n int) ([]byte, error) {
 		}
 
 		bf.cwait++
+		verifYield("buf.peek.prewait", bf)
 		bf.ccond.Wait()
 	}
 	bf.ccond.L.Unlock()
@@ -380,12 +384,14 @@ func (bf *buffer) ReadWait(n int) ([]byte, error) {
 	next := cpos + int64(n)
 
 	// If there's no data, then let's wait until there is some data
+	verifYield("buf.readwait.prelock", bf)
 	bf.ccond.L.Lock()
 	for ; next > ppos; ppos = bf.pseq.get() {
 		if bf.isDone() {
 			return nil, io.EOF
 		}
 
+		verifYield("buf.readwait.prewait", bf)
 		bf.ccond.Wait()
 	}
 	bf.ccond.L.Unlock()
@@ -534,6 +540,7 @@ func (bf *buffer) waitForWriteSpace(n int) (int64, int, error) {
 	//
 	if wrap > gate || gate > ppos {
 		var cpos int64
+		verifYield("buf.wspace.prelock", bf)
 		bf.pcond.L.Lock()
 		for cpos = bf.cseq.get(); wrap > cpos; cpos = bf.cseq.get() {
 			if bf.isDone() {
@@ -541,6 +548,7 @@ func (bf *buffer) waitForWriteSpace(n int) (int64, int, error) {
 			}
 
 			bf.pwait++
+			verifYield("buf.wspace.prewait", bf)
 			bf.pcond.Wait()
 		}
 
